@@ -86,7 +86,14 @@ pub fn build(
     });
   }
 
-  let processor = Arc::new(EventProcessor::new(actors, error_tx_channel));
+  let processor = Arc::new(
+    EventProcessor::new(actors, error_tx_channel).with_logger_tree(
+      internal_config
+        .loggers
+        .values()
+        .map(|logger| (logger.name.as_str(), logger.additive)),
+    ),
+  );
   let max_level = processor.max_level();
   let dispatch_layer = DispatchLayer::new(Arc::clone(&processor));
   let subscriber = tracing_subscriber::registry().with(dispatch_layer);
